@@ -428,7 +428,16 @@ def checkCase (c : Case) : CaseResult := Id.run do
 
 /-- cases of the op-level correspondence (tags `ops-*`, `hook-*`) go to `Driver.C12Ops` -/
 def dispatch (c : Case) : CaseResult :=
-  if c.tag.startsWith "ops-" || c.tag.startsWith "hook-" then Driver.C12Ops.checkOps c else checkCase c
+  if c.tag.startsWith "ops-" then Driver.C12Ops.checkOps c
+  else
+    let r1 := checkCase c
+    -- stage dumps of HyperedgeImprover::execute (guarded hook) inside a scene case: a failure of the
+    -- op-level replay takes precedence, so that a known scene-level finding cannot mask it
+    if (c.get "hst").size == 0 then r1 else
+    let r2 := Driver.C12Ops.checkOps c
+    match r2.verdict with
+    | .ok => { r1 with stats := r1.stats ++ r2.stats }
+    | _ => { r2 with stats := r1.stats ++ r2.stats, nontrivial := r1.nontrivial }
 
 def run (_args : List String) : IO UInt32 :=
   runCases dispatch
